@@ -20,6 +20,21 @@ CHECKS = {
  "C12": dict(cat="proof", ref="DESIGN.md section 7 C12, section 9",
    text="Theorems over the same LTS for all schedules/behaviours/worker counts: after a stop request (or the failure limit) at most one further request per worker is sent; no more than max_failures failed or errored scenarios are reported (m >= 1); once the limit is reached later phases are only opened and closed as skipped with the reason. Both bounds are shown to be attained. Tied to /repo by forced schedules (Stop labels, max_failures) compared step by step, and free-run oracles for max_examples, max_failures, stop, unique inputs, stateful step count and rate limit.",
    note="Trusted: as C11. Partial: max_examples / stateful_step_count (Hypothesis), rate-limit windows (pyrate-limiter) and runtime jitter are foreign code, only exercised by the free-run oracle; unique-inputs under several workers is checked for one worker only."),
+ "C04": dict(cat="proof", ref="DESIGN.md section 7 C04; notes/C04.md",
+   text="Coq theorems (closed under the global context) over all response documents of the modelled fragment (string/integer keys with any wildcards, default, inline/referenced responses, any number of media types, headers, 2.0 produces) and all responses, for every validity judge: status verdict iff no key instance equals the code; content-type verdict iff no documented type matches; the four checks report a failure exactly when the documentation (exact -> NXX -> default lookup, full reference resolution, schema of the matching media type) says the response deviates, and never raise, inside eight executable regions; outside each region a machine-checked witness replayed on the implementation each run (8 recorded findings). Tied to /repo on every run by differential correspondence of the four real check functions, media_types.parse and expand_status_code on real OpenApi30/SwaggerV20 objects; an independent oracle (own lookup + python-jsonschema) is compared with the implementation and with the Coq specification.",
+   note="Trusted: Coq kernel + vm_compute; hand-written Model_C04.v; harness encoders/oracle; python-jsonschema as the judge of validity. JSON-Schema validity, the OpenAPI->JSON Schema converter and header value coercion are function arguments of the model. OpenAPI 3.1, formats, remote references, non-ASCII names are outside the fragment. Partial: eight refuted regions."),
+ "C06": dict(cat="proof", ref="DESIGN.md section 7 C06; notes/C06.md",
+   text="Coq theorems for all code-point strings / values / parameter definitions: percent-encoding with UTF-8 round-trips (decoder rejects overlong forms and surrogates); for each of the 14 serializers a standards-conforming decoder recovers the value on the executable region (right shape, no style delimiter inside an item, non-empty, standard wire form), with machine-checked counterexamples outside it (8 recorded findings, incl. space sent as + in a path, [''] sent as [], label 0/False dropped, matrix without explode, cookie explode, OpenAPI style/explode defaults not applied, path delimiters percent-encoded); dispatch equals the OpenAPI 3 style table on 972 definition shapes when keywords are explicit; header precedence and provenance. Tied to /repo per run by correspondence with serialization.py, quote_all, prepare_path/url/headers and the real parameter strategy chain; an oracle sends real cases to a loopback server (requests and WSGI transports) and decodes them independently.",
+   note="Trusted: Coq kernel + vm_compute; hand-written Model_C06.v; harness decoders. Partial: coverage-phase serialization, urlencoded/multipart/XML bodies, ASGI, GraphQL URLs not covered; requests' own encoding is tested, not proved."),
+ "C15": dict(cat="proof", ref="DESIGN.md section 7 C15; notes/C15.md",
+   text="Coq theorems over all configurations, JSON trees and URLs: after sanitize_value no sensitive key at any depth keeps a non-marker value; the output is a function of the public projection (noninterference) and nothing outside sensitive positions changes; extend/configure change exactly the classified set; sanitize_url replaces every userinfo and every value of a sensitive query name; per-channel noninterference for the VCR entry and HAR entry (full) and for cassette file, curl sample, JUnit message and console under executable region predicates, with four refuted regions proved by witness and recorded as findings; sanitization off is the identity. Tied to /repo per run by correspondence with sanitize_value, SanitizationConfig, sanitize_url, prepare_request, vcr_writer, har_writer, and by canary searches through real `st run` invocations (junit, vcr, har, console).",
+   note="Trusted: Coq kernel+vm_compute; hand-written Model_C15.v; harness encoders/stubs; urllib/requests/PyYAML as foreign functions. Partial: ASCII names only; bodies/path/fragment/failure text treated as non-secret per the property text; console text outside failure section and loading lines covered by the canary grep only."),
+ "C18": dict(cat="proof", ref="DESIGN.md section 7 C18; notes/C18.md",
+   text="Coq theorems over all scenario histories (forests of recorded cases): find_related yields every other node of the tree exactly once for roots and leaves (refuted for inner nodes); the path-prefix heuristic is exact outside the trailing-s region and always lenient; use_after_free and ensure_resource_availability report exactly / only when the property text says so under executable region hypotheses, with machine-checked counterexamples outside them (6 recorded findings: the DELETE's parent response is read instead of the DELETE's, rstrip('s'), subtree skipped, 3xx creation window, override of explicit containers). Tied to /repo per run by evaluating the same definitions against real ScenarioRecorder / Case / CheckContext objects and the real checks on thousands of histories (exhaustive up to 4 nodes in the thorough tier), plus a reference-predicate oracle.",
+   note="Trusted: Coq kernel+vm_compute; hand-written Model_C18.v; harness history builder. Partial: theorems assume the checked case is the last recorded one (as the engine calls them); header/cookie containers of _override, schema-type guards and message texts are not modelled."),
+ "C19": dict(cat="proof", ref="DESIGN.md section 7 C19; notes/C19.md",
+   text="Coq theorems over all registration histories: a heap model of to_filterable_hook (closures, decorators, function attributes sharing FilterSet objects) refines a value-semantics specification in which every hook carries exactly the filters chained in its own registration expression, for both decorator forms; unfiltered hooks apply everywhere; unregistration removes exactly that hook; all scopes are applied in order; auth providers carry their own filters. The pre-fix behaviour is kept as a second model with a refutation witness (regression sentinel). Four further findings (case-level hooks ignore filters, filter_used leak, rejected registration keeps its filters, one filter set per function object) are refuted by witness and recorded. Tied to /repo per run by executing generated histories on real HookDispatcher / AuthStorage objects and by real data generation with hooks at several scopes.",
+   note="Trusted: Coq kernel+vm_compute; hand-written Model_C19.v; regex and user predicates are opaque truth tables. Not covered: stale saved proxies, caching auth providers, GraphQL call sites, pytest/CLI hook loading, thread safety of registration."),
 }
 
 NOT_YET = {
